@@ -265,6 +265,26 @@ def make_cases(ctx, first):
             w.add(raw("POST", "/v2/%s/blobs/uploads/" % big, model=False))
             w.add(raw("GET", "/v2/%s/tags/list" % big, model=False))
             w.add(raw("PUT", "/v2/x/%s/manifests/t1" % big, headers={"Content-Type": [MT_OCI_I]}, body=b'{"schemaVersion":2,"mediaType":"%s","manifests":[]}' % MT_OCI_I.encode(), model=False))
+        if conf["push"] and not conf["ro"] and i % 2 == 1:
+            # state tokens that decode to JSON values other than an object, on sessions that exist (empty, and with content)
+            for tok in ("null", "[]", "0", "true", '"x"', "{}", '{"offset":null}', '{"offset":[1]}'):
+                r_ = w.repo()
+                ks_ = w.add(upload_post(r_))
+                sid_ = "$SID%d$" % ks_
+                if ctx.rng.random() < 0.5:
+                    w.add(upload_patch(r_, sid_, None, state_token(0), b"abc"))
+                if ctx.rng.random() < 0.5:
+                    w.add(raw("PATCH", "/v2/%s/blobs/uploads/%s" % (r_, sid_), "state=" + raw_token(tok), {}, b"xyz", model=False))
+                else:
+                    w.add(raw("PUT", "/v2/%s/blobs/uploads/%s" % (r_, sid_), "state=" + raw_token(tok) + "&digest=" + urllib.parse.quote(dg("sha256", b"xyz")), {}, b"xyz", model=False))
+                w.add(dict(upload_get(r_, sid_), model="(skip)"))       # (the model did not see the request above)
+        if i % 4 == 2:
+            # a manifest beyond the size limit whose length is not announced
+            r_ = w.repo()
+            big_ = image_manifest(desc(MT_CFG, b"{}"), [], annotations={"pad": "x" * (conf["mlimit"] + 10)})
+            for unk_ in (True, False):
+                st_ = manifest_put(r_, "big", big_, ctype=MT_OCI_M, unknown=unk_)
+                w.add(st_)
         # a few sessions left open on purpose
         for _ in range(2):
             k = w.add(upload_post(w.repo()))
